@@ -14,7 +14,7 @@ func extraAgents(s *Sim) []Agent {
 			out = append(out, a)
 		}
 	}
-	add("lender", &LenderAgent{newBase(s, "lender")})
+	add("lender", &LenderAgent{baseAgent: newBase(s, "lender")})
 	add("levlp", &LevLPAgent{newBase(s, "levlp")})
 	add("perp", &PerpAgent{newBase(s, "perp")})
 	add("liquidator", &LiquidatorAgent{baseAgent: newBase(s, "liquidator")})
